@@ -4,12 +4,12 @@ namespace Pg.C16
 
 /-- Program counters that occur when every region is atomic. -/
 def okPc : PC → Bool
-  | .start | .preSetup | .loop | .next | .hold _ | .finished => true
+  | .start | .preSetup | .loop | .next | .hold _ | .finished | .exhausted | .crashed => true
   | _ => false
 
 /-- The worker is past the set-up of the shared algorithm. -/
 def pastSetup : PC → Bool
-  | .loop | .next | .hold _ | .finished => true
+  | .loop | .next | .hold _ | .finished | .exhausted | .crashed => true
   | _ => false
 
 /-- What the workers' program counters say about the study. -/
@@ -17,6 +17,8 @@ structure WorkersInv (maxT : Option Nat) (n : Nat) (workers : Nat → Worker) (s
   holdOk : ∀ i t, (workers i).pc = .hold t → ∃ tr ∈ st.trials, tr.id = t ∧ tr.group = (workers i).group
   finOk : ∀ i, (workers i).pc = .finished → st.active = true →
     (∃ m, maxT = some m ∧ st.trials.length = m) ∧
+    ∀ k, st.latest (workers i).group = some k → st.isPending k = false
+  exhOk : ∀ i, (workers i).pc = .exhausted → st.active = true →
     ∀ k, st.latest (workers i).group = some k → st.isPending k = false
   groupOk : ∀ t ∈ st.trials, ∃ i, i < n ∧ (workers i).group = t.group
 
@@ -30,8 +32,11 @@ structure Inv (s : State) : Prop where
   fresh : s.algo.isSetup = false →
     s.algo.fedBack = [] ∧ s.algo.numProposals = 0 ∧ s.algo.numFeedbacks = 0 ∧ ∀ st ∈ s.studies, st.trials = []
   study : ∀ st ∈ s.studies, StudyInv s.maxTrials st s.algo ∧ WorkersInv s.maxTrials s.nWorkers s.workers st
+  /-- A worker whose loop ended by exhaustion of the proposer: the proposer stays exhausted. -/
+  exhAlgo : ∀ i, (s.workers i).pc = .exhausted → s.algo.spaceExhausted = true
 
-theorem inv_init (n : Nat) (groups : Nat → Nat) (maxT : Option Nat) : Inv (init n groups maxT) := by
+theorem inv_init (n : Nat) (groups : Nat → Nat) (maxT : Option Nat) (space : Option Nat := none) :
+    Inv (init n groups maxT space) := by
   constructor
   · intro i; rfl
   · intro i; rfl
@@ -40,6 +45,7 @@ theorem inv_init (n : Nat) (groups : Nat → Nat) (maxT : Option Nat) : Inv (ini
   · intro i h; cases h
   · intro _; exact ⟨rfl, rfl, rfl, fun st h => by cases h⟩
   · intro st h; cases h
+  · intro i h; cases h
 
 theorem studyInv_new (maxT : Option Nat) (a : Algo) (h1 : a.fedBack = []) (h2 : a.numProposals = 0)
     (h3 : a.numFeedbacks = 0) : StudyInv maxT Study.new a := by
@@ -62,11 +68,12 @@ theorem StudyInv.setup {m st a} (h : StudyInv m st a) (h1 : a.fedBack = []) (h2 
   · simp [Algo.setup, h2]
   · exact h.bestOk
   · exact h.bestNone
+  · intro sp _; simp [Algo.setup]
 
 theorem StudyInv.setActive {m st a} (h : StudyInv m st a) {b : Bool} :
     StudyInv m { st with active := b } a :=
   ⟨h.ids, h.bound, h.cPending, h.cCompleted, h.cInfeasible, h.infCompleted, h.finalSome, h.latestSome,
-   h.pendingLatest, h.fed, h.nFeedbacks, h.nProposals, h.bestOk, h.bestNone⟩
+   h.pendingLatest, h.fed, h.nFeedbacks, h.nProposals, h.bestOk, h.bestNone, h.spaceBound⟩
 
 /-! ### Rebuilding `Inv` after a change of one worker / of the study -/
 
@@ -77,7 +84,10 @@ theorem Inv.updWorker {s : State} (h : Inv s) (w : Nat) (pc' : PC)
       (∀ t, pc' = .hold t → ∃ tr ∈ st.trials, tr.id = t ∧ tr.group = (s.workers w).group) ∧
       (pc' = .finished → st.active = true →
         (∃ m, s.maxTrials = some m ∧ st.trials.length = m) ∧
-        ∀ k, st.latest (s.workers w).group = some k → st.isPending k = false)) :
+        ∀ k, st.latest (s.workers w).group = some k → st.isPending k = false) ∧
+      (pc' = .exhausted → st.active = true →
+        ∀ k, st.latest (s.workers w).group = some k → st.isPending k = false))
+    (h5 : pc' = .exhausted → s.algo.spaceExhausted = true) :
     Inv (s.setPc w pc') := by
   constructor
   · intro i
@@ -116,8 +126,13 @@ theorem Inv.updWorker {s : State} (h : Inv s) (w : Nat) (pc' : PC)
     · intro i
       simp only [State.setPc, State.setW]
       by_cases hi : i = w
-      · simp only [hi, if_true]; exact (h4 st hst).2
+      · simp only [hi, if_true]; exact (h4 st hst).2.1
       · simp only [hi, if_false]; exact hW.finOk i
+    · intro i
+      simp only [State.setPc, State.setW]
+      by_cases hi : i = w
+      · simp only [hi, if_true]; exact (h4 st hst).2.2
+      · simp only [hi, if_false]; exact hW.exhOk i
     · intro t ht
       obtain ⟨i, hi, hg⟩ := hW.groupOk t ht
       refine ⟨i, hi, ?_⟩
@@ -125,12 +140,46 @@ theorem Inv.updWorker {s : State} (h : Inv s) (w : Nat) (pc' : PC)
       by_cases hiw : i = w
       · simp only [hiw, if_true]; rw [← hiw]; exact hg
       · simp only [hiw, if_false]; exact hg
+  · intro i
+    simp only [State.setPc, State.setW]
+    by_cases hi : i = w
+    · simp only [hi, if_true]; exact h5
+    · simp only [hi, if_false]; exact h.exhAlgo i
+
+/-- `updWorker` for a new program counter other than `exhausted` (the old interface). -/
+theorem Inv.updWorker' {s : State} (h : Inv s) (w : Nat) (pc' : PC) (hne : pc' ≠ .exhausted)
+    (h1 : okPc pc' = true) (h2 : pastSetup pc' = true → s.algo.isSetup = true)
+    (h3 : s.studies = [] → pc' = .start)
+    (h4 : ∀ st ∈ s.studies,
+      (∀ t, pc' = .hold t → ∃ tr ∈ st.trials, tr.id = t ∧ tr.group = (s.workers w).group) ∧
+      (pc' = .finished → st.active = true →
+        (∃ m, s.maxTrials = some m ∧ st.trials.length = m) ∧
+        ∀ k, st.latest (s.workers w).group = some k → st.isPending k = false)) :
+    Inv (s.setPc w pc') :=
+  h.updWorker w pc' h1 h2 h3
+    (fun st hst => ⟨(h4 st hst).1, (h4 st hst).2, fun he => absurd he hne⟩) (fun he => absurd he hne)
+
+theorem spaceExhausted_iff (a : Algo) :
+    a.spaceExhausted = true ↔ ∃ sp, a.space = some sp ∧ sp ≤ a.numProposals := by
+  unfold Algo.spaceExhausted
+  cases a.space with
+  | none => simp
+  | some sp => simp
+
+theorem spaceExhausted_propose {a : Algo} (h : a.spaceExhausted = true) : a.propose.spaceExhausted = true := by
+  rw [spaceExhausted_iff] at h ⊢
+  obtain ⟨sp, h1, h2⟩ := h
+  exact ⟨sp, h1, Nat.le_succ_of_le h2⟩
+
+theorem spaceExhausted_feedback {a : Algo} (k : Nat) (h : a.spaceExhausted = true) :
+    (a.feedback k).spaceExhausted = true := h
 
 /-- Replace the (single) study and the algorithm state; the algorithm stays set up. -/
 theorem Inv.updStudy {s : State} (h : Inv s) (st st' : Study) (a' : Algo) (hs : s.studies = [st])
     (hset : a'.isSetup = true)
     (hI : StudyInv s.maxTrials st' a')
-    (hW : WorkersInv s.maxTrials s.nWorkers s.workers st → WorkersInv s.maxTrials s.nWorkers s.workers st') :
+    (hW : WorkersInv s.maxTrials s.nWorkers s.workers st → WorkersInv s.maxTrials s.nWorkers s.workers st')
+    (hmono : s.algo.spaceExhausted = true → a'.spaceExhausted = true) :
     Inv { s with studies := [st'], algo := a' } := by
   constructor
   · exact h.wstudy
@@ -146,6 +195,7 @@ theorem Inv.updStudy {s : State} (h : Inv s) (st st' : Study) (a' : Algo) (hs : 
     simp only [List.mem_singleton] at hx
     subst hx
     exact ⟨hI, hW (h.study st (by rw [hs]; simp)).2⟩
+  · intro i hp; exact hmono (h.exhAlgo i hp)
 
 theorem studyOf_eq {s : State} (h : Inv s) (w : Nat) {st : Study} (hs : s.studies = [st]) :
     s.studyOf w = some st := by
